@@ -28,9 +28,9 @@ Print Assumptions C09_small_chunk.
     100 ms *)
 Theorem C09_instalment : forall rate now (p : chunk) sl,
   rate_ok rate -> rate * 100 < zlen (cdata p) ->
-  bw_loop rate p sl now = BwInst p sl (now + bw_instalment_ns) /\
+  bw_loop rate p sl now = BwInst p rate sl (now + bw_instalment_ns) /\
   bw_instalment_ns = 100000000 /\
-  on_timer (TBandwidth rate) (now + bw_instalment_ns) (BwInst p sl (now + bw_instalment_ns)) =
+  on_timer (TBandwidth rate) (now + bw_instalment_ns) (BwInst p rate sl (now + bw_instalment_ns)) =
     Send (mkChunk (slice_to (cdata p) (rate * 100)) (cts p))
          (KBwLoop (mkChunk (slice_from (cdata p) (rate * 100)) (cts p)) (sl - bw_instalment_ns)) /\
   zlen (slice_to (cdata p) (rate * 100)) = rate * 100.
